@@ -32,7 +32,7 @@ TRUSTED = ["SimpleMRSLexer regular expressions (not modelled; exercised through 
 LEVEL_TEXT = ("Proof (Coq, no axioms) about the token-level model of delphin/codecs/simplemrs.py: decoding the "
               "token stream of the encoder returns the structure with arguments in role order, each variable's "
               "properties in priority order on first mention, and with properties/alignments removed exactly when "
-              "suppressed; unescape inverts escape; for MRS-JSON, from_dict inverts to_dict at the level of the JSON "
+              "suppressed; encoding the decoded structure again gives the same token stream; unescape inverts escape; for MRS-JSON, from_dict inverts to_dict at the level of the JSON "
               "value. Encoder and decoder models are tied to the code by "
               "kernel-checked correspondence on the real lexer's tokens; text-level round trip, stability under "
               "re-encoding, indentation, multi-item documents and the MRX, MRS-JSON and Indexed codecs are "
